@@ -209,3 +209,6 @@ def run_pairs(case):
 def run_case(case):
   common.tf_init()
   return run_conformance(case) if case["sub"] == "conformance" else run_pairs(case)
+
+# (appended: sub-lattices added after the seeded waves; kept out of the original RULE text for readability)
+RULE = RULE + '; all multipliers of a case come from ONE factory and are re-read after the last one was built; a second floating point width (fp16); every failing operand pair is named so that findings are identified by their exact input sets'
